@@ -40,6 +40,10 @@ import (
 //   resend    when, in a unit whose MULTI was accepted, a member was answered MOVED a / ASK a, a later unit of the same
 //             block exists on node a (ASK: its MULTI received under ASKING);
 //   redirect  a plain command answered MOVED a / ASK a is next received by a (ASK: under ASKING).
+//
+// The rules are the same however the client came to place the batch: a quarter of the real-time batches are issued
+// while some of their slots are missing from the client's view (see prepareCase), so that the batch is placed only
+// after a topology refresh; the counters *_after_pick_refresh say how often the rules were exercised on such batches.
 
 // ------------------------------------------------------------------ batch
 
@@ -315,22 +319,22 @@ func firstLine(s string) string {
 // ------------------------------------------------------------------ the case
 
 type caseSpec struct {
-	ID        int      `json:"id"`
-	Kind      string   `json:"kind"` // DoMulti | DoMultiCache
-	N         int      `json:"n"`
-	Slots     int      `json:"slots"`
-	Blocks    int      `json:"blocks"`
-	Faults    []string `json:"faults"`
-	Shards    int      `json:"shards"`
-	Lifetime  bool     `json:"conn_lifetime,omitempty"`
+	ID       int      `json:"id"`
+	Kind     string   `json:"kind"` // DoMulti | DoMultiCache
+	N        int      `json:"n"`
+	Slots    int      `json:"slots"`
+	Blocks   int      `json:"blocks"`
+	Faults   []string `json:"faults"`
+	Shards   int      `json:"shards"`
+	Lifetime bool     `json:"conn_lifetime,omitempty"`
 	// PartialView: slots of the batch that had no owner when the client learnt the topology (they are assigned by the time
 	// the batch is issued). PickRefresh is MEASURED: the nodes received CLUSTER SLOTS / SHARDS after the call started and
 	// before anything of the batch, i.e. the client could not place the batch in its view and refreshed first.
 	PartialView []int `json:"slots_unassigned_in_client_view,omitempty"`
 	PickRefresh bool  `json:"picked_after_refresh,omitempty"`
-	Pipelined bool     `json:"always_pipelining"`
-	Transport bool     `json:"-"`
-	seed      int64
+	Pipelined   bool  `json:"always_pipelining"`
+	Transport   bool  `json:"-"`
+	seed        int64
 }
 
 var uidSeq atomic.Int64
